@@ -121,7 +121,9 @@ def run(rep: Report, prog: Program, tier: str) -> None:
     ctx = ("param", "ctx")
     hint = ("attr", ("attr", ctx, "classification"), "retry_after_s")
     rem = ("attr", ctx, "remaining_s")
-    jitter = ("free", "jitter")
+    from .common import nonneg_local
+
+    jitter = ("free", nonneg_local(prog, prog.func("redress.strategies:retry_after_or"), "jitter_s") or "jitter")
     n_hint = 0
     for p in E.paths(fi):
         if p.exit[0] != "return":
